@@ -28,12 +28,27 @@ func verifC06PathRoundTrip(n int) {
 			text += "[" + strconv.Itoa(idx) + "]"
 			want = append(want, IndexSel(idx))
 		default: // ["key"]
-			key := []string{"a b", "k.3", `q"uote`, ""}[vsymChoice("key", 4)]
-			text += "[" + strconv.Quote(key) + "]"
+			// a key from the pool, or 1..2 arbitrary printable ASCII bytes
+			// (quotes and backslashes included), written as a Go-quoted string
+			key := ""
+			if c := vsymChoice("key", 5); c < 4 {
+				key = []string{"a b", "k.3", `q"uote`, ""}[c]
+			} else {
+				key = vsymString("keybytes", 1+vsymChoice("keylen", 2))
+				for k := 0; k < len(key); k++ {
+					vsymAssume(vsymAnd(key[k] >= 0x20, key[k] < 0x7f))
+				}
+			}
+			quoted := strconv.Quote(key)
+			text += "[" + quoted + "]"
 			want = append(want, KeySel(key))
 		}
 	}
 	got, err := Parse(text)
+	if err != nil && n == 1 && len(want) == 1 && want[0].Type == Key && len(want[0].Key) > 0 && want[0].Key[len(want[0].Key)-1] == '\\' {
+		vsymFinding("F27", true, "a quoted path key that ends in a backslash ([\"a\\\\\"]) is rejected: the scanner steps over the first backslash of the pair only and takes the second one with the closing quote for an escaped quote")
+		return
+	}
 	vsymAssert(err == nil, "a printed path parses")
 	vsymAssert(len(got) == len(want), "the path has as many selectors as were written")
 	for i := range want {
@@ -44,6 +59,7 @@ func verifC06PathRoundTrip(n int) {
 	vsymReach("C06_jsonexpr")
 }
 
+func VerifHarness_C06_PathRoundTrip_1() { verifC06PathRoundTrip(1) }
 func VerifHarness_C06_PathRoundTrip_2() { verifC06PathRoundTrip(2) }
 func VerifHarness_C06_PathRoundTrip_3() { verifC06PathRoundTrip(3) }
 
